@@ -32,7 +32,7 @@ package vm
 //@   oncall StateDB.GetState : w = $r ; reads = reads + 1 ; key = $2 ; acct = $1
 //@   oncall (*vm.Tracer).SaveStateChange : n = n + 1 ; saverr = $r
 //@   assertcall (*vm.Tracer).SaveStateChange account [C10]: $1 == selfaddr
-//@   assertcall (*vm.Tracer).SaveStateChange operands [C09]: $2 != nil && *$2 == slot0 && $3 != nil && *$3 == off0 && $4 == be32(typ0)
+//@   assertcall (*vm.Tracer).SaveStateChange operands [C09 C12]: $2 != nil && *$2 == slot0 && $3 != nil && *$3 == off0 && $4 == be32(typ0)
 //@   assertcall (*vm.Tracer).SaveStateChange source [C09 C10]: reads == 1 && key == be32(slot0) && acct == selfaddr
 //@   assertcall (*vm.Tracer).SaveStateChange packed-value [C09]: ok && len($5) == uint64(width0) && (forall i uint64 :: i < len($5) ==> $5[i] == bytei(w, 32 - uint64(off0) - uint64(width0) + i))
 //@   ensures valid-journals-once [C09]: ok ==> n == 1 && err == saverr
@@ -80,7 +80,7 @@ package vm
 //@   assertcall StateDB.GetState data-word-read [C09 C10]: reads >= 1 ==> $1 == selfaddr && $2 == be32(base + u256(reads - 1))
 //@   assertcall KeccakState.Write hashed-slot-is-32-bytes [C09]: len($1) == 32 && word($1, 0) == slot0
 //@   assertcall (*vm.Tracer).SaveStateChange account [C10]: $1 == selfaddr
-//@   assertcall (*vm.Tracer).SaveStateChange operands [C09]: $2 != nil && *$2 == slot0 && $3 == nil && $4 == be32(typ0)
+//@   assertcall (*vm.Tracer).SaveStateChange operands [C09 C12]: $2 != nil && *$2 == slot0 && $3 == nil && $4 == be32(typ0)
 //@   assertcall (*vm.Tracer).SaveStateChange decoded-length [C09]: valid && (inplace ==> len($5) == uint64(slen)) && (!inplace ==> len($5) == uint64(llen) && math(reads) == 1 + (math(uint64(llen)) + 31) / 32)
 //@   assertcall (*vm.Tracer).SaveStateChange in-place-content [C09]: inplace ==> (forall i uint64 :: i < len($5) ==> $5[i] == bytei(w, i))
 //@   loop 0 invariant reads: reads == i + 1 && n == 0
